@@ -95,16 +95,26 @@ func ParseDeviceCodeClientSecret(wwwAuthenticate string) string {
 
 // parseQuotedParam extracts a quoted parameter value (key="value") from a
 // WWW-Authenticate header value. Returns an empty string if not found.
+//
+// Only a whole parameter name matches: the name must start the header or
+// follow a separator, so that client_id is not found inside
+// device_code_client_id.
 func parseQuotedParam(header, param string) string {
 	key := param + `="`
-	idx := strings.Index(header, key)
-	if idx == -1 {
-		return ""
+	for from := 0; ; {
+		i := strings.Index(header[from:], key)
+		if i == -1 {
+			return ""
+		}
+		idx := from + i
+		if idx == 0 || header[idx-1] == ' ' || header[idx-1] == ',' || header[idx-1] == '\t' {
+			rest := header[idx+len(key):]
+			end := strings.Index(rest, `"`)
+			if end == -1 {
+				return ""
+			}
+			return rest[:end]
+		}
+		from = idx + 1
 	}
-	rest := header[idx+len(key):]
-	end := strings.Index(rest, `"`)
-	if end == -1 {
-		return ""
-	}
-	return rest[:end]
 }
